@@ -39,7 +39,7 @@ def frank_tol(tau):
 
 def cases(seed, tier):
     rng = rng_for(seed, 'C10')
-    reps = 14 if tier == 'quick' else 300
+    reps = 14 if tier == 'quick' else 2500
     sizes = [2, 3, 4, 6, 50, 500] if tier == 'quick' else [2, 3, 4, 6, 50, 500, 2000]
     out = []
     for r in range(reps):
